@@ -224,6 +224,39 @@ type c12lostRun struct {
 	alive  bool
 }
 
+// c12freshOver: a fresh client over one transport of a "multi" server child connects, authenticates with the real
+// capability map and calls the directory and both generic objects.  tried = false: the source address asked for
+// (port != 0) is not free yet, nothing to observe.
+func c12freshOver(ch *c12child, how, transport string, port int) (fr c12lostFresh, tried bool) {
+	fr = c12lostFresh{how: how}
+	c, err := c12open(ch, transport, port)
+	if err != nil {
+		if port != 0 {
+			return fr, false
+		}
+		fr.err = "cannot connect: " + err.Error()
+		return fr, true
+	}
+	defer c.Close()
+	r, err := c12handshake(c, "", "")
+	if err != nil {
+		fr.err = err.Error()
+		return fr, true
+	}
+	for i, t := range [][2]uint32{{1, 1}, {ch.svc, 1}, {ch.svc, ch.obj2}} {
+		id := uint32(3 + 2*i)
+		if r.writeFrame(net.Call, t[0], t[1], 2, id, c12le32(t[1])) != nil {
+			break
+		}
+		if r.await(id, c12Probe) {
+			fr.probes[i] = int(r.got[len(r.got)-1][0])
+		} else {
+			break
+		}
+	}
+	return fr, true
+}
+
 func c12lostPlay(ch *c12child, sp c12lostSpec) *c12lostRun {
 	run := &c12lostRun{}
 	lastPort := 0
@@ -271,35 +304,9 @@ func c12lostPlay(ch *c12child, sp c12lostSpec) *c12lostRun {
 	run.sent = strings.Join(sent, "; ")
 	run.alive = ch.alive()
 	fresh := func(how, transport string, port int) {
-		fr := c12lostFresh{how: how}
-		c, err := c12open(ch, transport, port)
-		if err != nil {
-			if port != 0 {
-				return // (the address is not free yet: nothing to observe)
-			}
-			fr.err = "cannot connect: " + err.Error()
+		if fr, tried := c12freshOver(ch, how, transport, port); tried {
 			run.fresh = append(run.fresh, fr)
-			return
 		}
-		defer c.Close()
-		r, err := c12handshake(c, "", "")
-		if err != nil {
-			fr.err = err.Error()
-			run.fresh = append(run.fresh, fr)
-			return
-		}
-		for i, t := range [][2]uint32{{1, 1}, {ch.svc, 1}, {ch.svc, ch.obj2}} {
-			id := uint32(3 + 2*i)
-			if r.writeFrame(net.Call, t[0], t[1], 2, id, c12le32(t[1])) != nil {
-				break
-			}
-			if r.await(id, c12Probe) {
-				fr.probes[i] = int(r.got[len(r.got)-1][0])
-			} else {
-				break
-			}
-		}
-		run.fresh = append(run.fresh, fr)
 	}
 	fresh(sp.transport+"://", sp.transport, 0)
 	if lastPort != 0 {
